@@ -368,6 +368,14 @@ func run(c *hx.Ctx) error {
 		res.Hist("newline-stream/probe-" + n.probe + "-" + n.place)
 		res.Hist("newline-stream/role-" + n.role)
 	}
+	// every statement and declaration form x modifiers x file roles (lexh.Forms, shared with C04): the build errors
+	// of files that extend, import and render other files, of macro bodies with a format, of imported packages
+	for _, fc := range lexh.Forms(proto.NewRand(r.U64()), c.Quick(), c.N(3000, 60000)) {
+		builds = append(builds, fc.BuildCase)
+		origin[fc.BuildCase.Line()] = fmt.Sprintf("forms stream: form=%s mod=%s role=%s", fc.Form, fc.Mod, fc.Role)
+		res.Hist("forms-stream")
+		res.Hist("forms-stream/role-" + fc.Role)
+	}
 	for i := 0; i < c.N(2500, 30000); i++ {
 		t := corpus.Trees[r.Intn(len(corpus.Trees))]
 		b := lexh.BuildCase{Kind: 't', Entry: t.Entry, Files: map[string][]byte{}}
